@@ -33,6 +33,7 @@ _INTFN = re.compile(r"^core::num::<impl (\w+)>::(\w+)$")
 # calls that are value-transparent (return (a view of) their first argument)
 TRANSPARENT = [
     re.compile(r"^<.* as (?:std|core)::ops::Deref(?:Mut)?>::deref(?:_mut)?$"),
+    re.compile(r"^(?:std|core)::ops::Deref(?:Mut)?::deref(?:_mut)?$"),
     re.compile(r"^<.* as (?:std|core)::clone::Clone>::clone$"),
     re.compile(r"^(?:std|core)::clone::Clone::clone$"),
     re.compile(r"^<.* as (?:std|core)::convert::(?:AsRef|AsMut)<.*>>::as_(?:ref|mut)$"),
